@@ -652,7 +652,10 @@ func runCase(c *Case) *Result {
 	for i := range g.Nodes {
 		b.WriteString(" " + csv(s.succ[i]))
 	}
-	b.WriteString(" R " + csv(c.Roots) + " E")
+	// the destination: initial content (P) for the model with a destination (Model/CopyImplDst.v)
+	p0 := append([]int(nil), c.Present...)
+	sort.Ints(p0)
+	b.WriteString(" R " + csv(c.Roots) + " P " + csv(p0) + " E")
 	for _, ev := range events {
 		b.WriteString(" " + ev)
 	}
@@ -660,7 +663,30 @@ func runCase(c *Case) *Result {
 	if oa.hung {
 		res.Impl = "HUNG"
 	} else {
-		res.Impl = fmt.Sprintf("ACCEPT ret=%d done=%s", b2i(oa.err != nil), csv(doneNodes))
+		var pres []int
+		s.mu.Lock()
+		for n, ok := range s.present {
+			if ok {
+				pres = append(pres, n)
+			}
+		}
+		s.mu.Unlock()
+		sort.Ints(pres)
+		// closed: the destination was link-closed all along -- the theorem (C02_closed_always_protocol) says it is
+		// when it started link-closed; the generator also produces initial contents that are not
+		closed0 := 1
+		in0 := map[int]bool{}
+		for _, p := range p0 {
+			in0[p] = true
+		}
+		for _, p := range p0 {
+			for _, m := range s.succ[p] {
+				if !in0[m] {
+					closed0 = 0
+				}
+			}
+		}
+		res.Impl = fmt.Sprintf("ACCEPT ret=%d done=%s dst=%s closed=%d", b2i(oa.err != nil), csv(doneNodes), csv(pres), closed0)
 	}
 
 	// ----- B
@@ -939,7 +965,7 @@ func main() {
 			}
 		}
 	} else {
-		n := run.Scale(1200, 40000)
+		n := run.Scale(750, 28000)
 		for i := 0; i < n; i++ {
 			cases = append(cases, genCase(run.Rand, run.Thorough()))
 		}
